@@ -9,6 +9,7 @@
 from greenlet import greenlet
 
 from pymtl3 import *
+from pymtl3.extra import clone_deepcopy
 from pymtl3.stdlib.connects import connect_pairs
 from pymtl3.stdlib.ifcs import MasterIfcCL, MasterIfcRTL, MinionIfcCL, MinionIfcRTL
 
@@ -122,7 +123,8 @@ class MemIfcCL2FLAdapter( Component ):
 
   def recv( s, msg ):
     assert s.entry is None
-    s.entry = msg
+    # keep a copy: the master may reuse its message object for the next request
+    s.entry = clone_deepcopy( msg )
 
   def construct( s, ReqType, RespType ):
     s.left  = MemMinionIfcCL( ReqType, RespType, s.recv, s.recv_rdy )
